@@ -12,6 +12,7 @@ import (
 	"errors"
 	"flag"
 	"fmt"
+	"io"
 	"math/rand"
 	"os"
 	"path/filepath"
@@ -250,6 +251,84 @@ func runOne(num int, in instance, file string, seed int64, cancelAt int, w *trac
 	return rr
 }
 
+// fragmenting readers over a byte slice
+type fragReader struct {
+	data []byte
+	pos  int
+	kind string
+	r    *rand.Rand
+}
+
+func (f *fragReader) Read(p []byte) (int, error) {
+	if f.pos >= len(f.data) {
+		return 0, io.EOF
+	}
+	if len(p) == 0 {
+		return 0, nil
+	}
+	n := len(p)
+	switch f.kind {
+	case "onebyte":
+		n = 1
+	case "half":
+		n = (len(p) + 1) / 2
+	case "random", "dataerr":
+		n = 1 + f.r.Intn(len(p))
+		if f.r.Intn(10) == 0 {
+			return 0, nil // a reader may return 0, nil
+		}
+	}
+	if n > len(f.data)-f.pos {
+		n = len(f.data) - f.pos
+	}
+	copy(p, f.data[f.pos:f.pos+n])
+	f.pos += n
+	if f.kind == "dataerr" && f.pos == len(f.data) {
+		return n, io.EOF // data together with EOF, as io.Reader allows
+	}
+	return n, nil
+}
+
+func runChunker(num int, r *rand.Rand, w *trace.Writer) {
+	in := genInstance(r, false)
+	if r.Intn(2) == 0 { // more than one buffer fill (10*max)
+		in.Data = genData(r, shapes[r.Intn(len(shapes))], int(in.Max)*(10+r.Intn(25))+r.Intn(50), int(in.Max))
+	}
+	kind := []string{"full", "onebyte", "half", "random", "dataerr", "dataerr"}[r.Intn(6)]
+	fr := &fragReader{data: in.Data, kind: kind, r: r}
+	c, err := desync.NewChunker(fr, in.Min, in.Avg, in.Max)
+	if err != nil {
+		panic(err)
+	}
+	chunks := [][2]uint64{}
+	var kept [][]byte
+	dataok, errs := true, "nil"
+	for {
+		start, b, err := c.Next()
+		if err != nil {
+			errs = "error"
+			break
+		}
+		if len(b) == 0 {
+			break
+		}
+		chunks = append(chunks, [2]uint64{start, start + uint64(len(b))})
+		if start+uint64(len(b)) > uint64(len(in.Data)) || !bytes.Equal(b, in.Data[start:start+uint64(len(b))]) {
+			dataok = false
+		}
+		kept = append(kept, b)
+	}
+	retained := true
+	for i, b := range kept {
+		s, e := chunks[i][0], chunks[i][1]
+		if e > uint64(len(in.Data)) || !bytes.Equal(b, in.Data[s:e]) {
+			retained = false
+		}
+	}
+	w.Emit(trace.M("ev", "chunker", "scen", num, "L", len(in.Data), "Mn", in.Min, "Mx", in.Max, "avg", in.Avg, "reader", kind,
+		"bnd", nonNil(oracle.Boundaries(in.Data, in.Avg)), "chunks", chunks, "dataok", dataok, "retainedok", retained, "err", errs, "shape", in.Shape))
+}
+
 func nonNil(a []int) []int {
 	if a == nil {
 		return []int{}
@@ -265,6 +344,7 @@ func main() {
 	out := flag.String("out", "", "trace output")
 	meta := flag.String("meta", "", "summary output")
 	dir := flag.String("dir", "", "scratch directory")
+	nchunker := flag.Int("chunker", 0, "single-stream Chunker instances with fragmenting readers")
 	flag.Parse()
 	w, err := trace.Create(*out)
 	if err != nil {
@@ -305,6 +385,9 @@ func main() {
 				hangs = append(hangs, map[string]interface{}{"scen": num, "parked": rr.hang.Parked, "stacks": rr.hang.Stacks})
 			}
 		}
+	}
+	for i := 0; i < *nchunker; i++ {
+		runChunker(num+i+1, r, w)
 	}
 	if err := w.Close(); err != nil {
 		fmt.Fprintln(os.Stderr, err)
